@@ -264,6 +264,9 @@ pub enum ChildResult {
 }
 
 pub fn run_forked(plan: &Plan, choices: Option<Vec<u32>>, record: bool, props: &[String], dump: bool, timeout_ms: i32) -> ChildResult {
+    // the rare long-life plans (a million lookups, a hundred thousand admissions) take 10-20 s on
+    // an idle machine: on a loaded one they must not be mistaken for a hung child
+    let timeout_ms = if plan.has_tag("mega") { timeout_ms.saturating_mul(10) } else { timeout_ms };
     unsafe {
         let mut fds = [0i32; 2];
         if libc::pipe(fds.as_mut_ptr()) != 0 {
